@@ -3031,6 +3031,544 @@ def check_classifier(ck, tu):
     return n_inst
 
 
+# ---------------------------------------------------------------------------------------------- BUCKET-BOUNDARY-LCP / BOUNDARY-ARRAY-SIZE
+# After a sample sort step the sorted strings lie bucket by bucket; bkt[b] .. bkt[b + 1] delimits bucket b (bktnum buckets, bktnum + 1
+# boundaries, the last one is the sentinel n).  The sub-sorts fill the LCP entries inside the buckets; ps5_sample_sort_lcp() owes exactly the
+# entries at the seams: for consecutive non-empty buckets p < q the entry at position bkt[q] is depth + (number of common leading key bytes
+# of the LAST string of p and the FIRST string of q), and no other entry is written.  Strings of an equal bucket 2j+1 all carry the key
+# get_splitter(j).  Decided by evaluation of the function's AST (Machine plus goto/label) on boundary arrays the rule makes up; keys are
+# concrete integers laid out so that the seams share 2..5 leading bytes while keys inside a bucket share 0..1, hence a key taken from the
+# wrong end of a bucket yields another number.  get_key_at / get_splitter / set_lcp / flipped / active / shadow are the observed interface
+# (events), everything else is interpreted; an unmodelled construct is `cannot decide`.
+#
+# BOUNDARY-ARRAY-SIZE: the boundary array of PS5BigSortStep is the counter array of part 0 (bkt_[0]), sized by a resize() in the counting
+# phase.  distribute_finished() and ps5_sample_sort_lcp() (called with bkt_[0].data()) are evaluated with that array as a block of exactly
+# the size the resize() argument evaluates to for that part; an element read or written outside the block is the counterexample.  Their
+# index expressions do not depend on the strings, so the evaluation uses the step whose buckets are all empty.
+class _Goto(Exception):
+    def __init__(self, label):
+        Exception.__init__(self, label)
+        self.label = label
+
+
+class StepMachine(Machine):
+    """Machine plus: goto / labels (a goto restarts the function body in `seek` mode, which skips to the label, entering the loops and
+    branches around it without evaluating their tests - the C++ meaning of a jump into a statement), static data members by the record
+    tables of the IR, a finding (EvalFault) for a store just past the end of an array, and the observed interface given by `hooks`."""
+
+    def __init__(self, tu, fn, hooks):
+        Machine.__init__(self, tu, fn)
+        self.seek = None
+        self.hooks = hooks
+        self._lab = {}
+
+    def _has_label(self, s, lab):
+        key = (id(s), lab)
+        r = self._lab.get(key)
+        if r is None:
+            r = any(x["k"] == "LabelStmt" and x.get("label") == lab for x in ir.walk(s))
+            self._lab[key] = r
+        return r
+
+    def run(self, stmts):
+        saved, self.seek = self.seek, None
+        jumps = 0
+        try:
+            while True:
+                try:
+                    for s in stmts:
+                        self.stmt(s)
+                    if self.seek is not None:
+                        raise Undecidable("%s: the label `%s` of a goto is not found in the function body" % (self.fn.loc, self.seek))
+                    return
+                except _Goto as g:
+                    jumps += 1
+                    if jumps > 100000:
+                        raise Undecidable("%s: more than 100000 jumps in the evaluation" % self.fn.loc)
+                    self.seek = g.label
+        finally:
+            self.seek = saved
+
+    def stmt(self, s):
+        if s is None:
+            return
+        k = s["k"]
+        if self.seek is None:
+            if k == "GotoStmt":
+                if not s.get("label"):
+                    raise Undecidable("%s: computed goto" % self.fn.nloc(s))
+                raise _Goto(s["label"])
+            if k == "LabelStmt":
+                for x in kids(s):
+                    self.stmt(x)
+                return
+            return Machine.stmt(self, s)
+        if not self._has_label(s, self.seek):
+            return
+        if k == "LabelStmt":
+            if s.get("label") == self.seek:
+                self.seek = None
+            for x in kids(s):
+                self.stmt(x)
+            return
+        if k in ("CompoundStmt", "AttributedStmt"):
+            for x in kids(s):
+                self.stmt(x)
+            return
+        if k == "IfStmt":
+            for br in kids(s)[1:]:
+                if br is not None and self._has_label(br, self.seek):
+                    self.stmt(br)
+                    return
+            raise Undecidable("%s: a goto into the condition of an if" % self.fn.nloc(s))
+        if k in ("ForStmt", "WhileStmt", "DoStmt"):
+            init, cond, inc, body = match.loop_parts(s)
+            if body is None or not self._has_label(body, self.seek):
+                raise Undecidable("%s: a goto into the head of a loop" % self.fn.nloc(s))
+            n, first = 0, True
+            while True:
+                if not first:
+                    c = self.ev(cond) if cond is not None else True
+                    if c is None:
+                        raise Undecidable("%s: loop bound depends on data at line %s" % (self.fn.full, s.get("l")))
+                    if not c:
+                        break
+                first = False
+                n += 1
+                if n > self.MAX_ITER:
+                    raise skel.TooLong("%s: loop at line %s does not end within %d rounds" % (self.fn.full, s.get("l"), self.MAX_ITER))
+                try:
+                    self.stmt(body)
+                except skel._Break:
+                    break
+                except skel._Continue:
+                    pass
+                if inc is not None:
+                    self.ev(inc)
+            return
+        raise Undecidable("%s: a goto into a %s is not modelled" % (self.fn.nloc(s), k))
+
+    def store(self, key, v):
+        if isinstance(key, tuple) and key and key[0] == "mem" and isinstance(key[1], int) and not self.allocated(key[1]):
+            a = key[1]
+            i = bisect.bisect_right(self.bases, a) - 1
+            if i >= 0 and not self.blocks[i][2] and self.bases[i] + self.blocks[i][1] <= a < self.bases[i] + self.blocks[i][1] + 1024:
+                raise EvalFault("a write of element %d of an array of %d elements (in %s, %s)"
+                                % (a - self.bases[i], self.blocks[i][1], self.fn.name, self.fn.loc))
+        Machine.store(self, key, v)
+
+    def static_member(self, e):
+        recs = [r for r in self.tu.records if r.get("qname") == e.get("owner")]
+        bty = _bare_ty((strip_casts(kids(e)[0]).get("ty") or "")) if kids(e) else ""
+        exact = [r for r in recs if r.get("full") == bty]
+        vals = set()
+        for r in (exact or recs):
+            for s_ in r.get("statics", []):
+                if s_["name"] == e.get("member") and isinstance(s_.get("val"), int):
+                    vals.add(s_["val"])
+        if len(vals) != 1:
+            raise Undecidable("%s: the value of the static member %s::%s is not in the IR" % (self.fn.nloc(e), e.get("owner"), e.get("member")))
+        v = vals.pop()
+        return bool(v) if _bare_ty(e.get("ty")) == "bool" else v
+
+    def _event(self, e, sk):
+        if e["k"] == "MemberExpr" and e.get("static") and "cval" not in e:
+            return self.static_member(e)
+        if "callee" in e:
+            r = self.hooks(self, e)
+            if r is not NotImplemented:
+                return r
+        return Machine._event(self, e, sk)
+
+
+def _recv(e):
+    """receiver expression of a member call (casts stripped), else None"""
+    if e.get("member_call") and kids(e):
+        return strip_casts(kids(e)[0])
+    return None
+
+
+def _call_args(e):
+    a = [x for x in kids(e) if x is not None and x["k"] != "DefaultArg"]
+    return a[1:] if e.get("member_call") else a
+
+
+def _seam_keys(plan, nbuckets, kbytes):
+    """plan: {bucket: number of strings}.  -> (bkt, keys, splitters, want) : the boundary array (nbuckets + 1 entries), the key of every
+    string, {j: get_splitter(j)} for every j, {position: common leading bytes at the seam}"""
+    k = (nbuckets - 1) // 2
+    order = sorted(plan)
+    cur = [0x40] + [1] * (kbytes - 1)
+    distinct, seam_of, low, high = [], {}, 0, 0
+    for bi, b in enumerate(order):
+        ndist = 1 if b % 2 else plan[b]
+        for t in range(ndist):
+            if distinct:
+                if t == 0:
+                    c = 2 + high % (kbytes - 4)
+                    high += 1
+                    seam_of[b] = c
+                else:
+                    c = low % 2
+                    low += 1
+                cur = cur[:c] + [cur[c] + 1] + [1] * (kbytes - 1 - c)
+            distinct.append((b, int.from_bytes(bytes(cur), "big")))
+    if any(x > 0x7f for x in cur):
+        return None
+    bkt, keys, pos = [0], [], 0
+    first_key, at = {}, 0
+    for b in range(nbuckets):
+        pos += plan.get(b, 0)
+        bkt.append(pos)
+    per = {}
+    for b, v in distinct:
+        per.setdefault(b, []).append(v)
+    for b in order:
+        vs = per[b]
+        keys += vs if b % 2 == 0 else vs * plan[b]
+    spl = {}
+    vals = [v for _, v in distinct]
+    owner = [b for b, _ in distinct]
+    j = 0
+    while j < k:
+        if 2 * j + 1 in plan:
+            spl[j] = per[2 * j + 1][0]
+            j += 1
+            continue
+        run = [j]
+        while run[-1] + 1 < k and 2 * (run[-1] + 1) + 1 not in plan and not any(2 * run[-1] + 1 < b < 2 * (run[-1] + 1) + 1 for b in plan):
+            run.append(run[-1] + 1)
+        below = [v for b, v in distinct if b < 2 * j + 1]
+        above = [v for b, v in distinct if b > 2 * run[-1] + 1]
+        if below:
+            base = below[-1] + 1
+            if above and base + len(run) >= above[0]:
+                return None
+        elif above:
+            base = above[0] - len(run) - 1
+            if base < 0:
+                return None
+        else:
+            base = 1 << 20
+        for i, jj in enumerate(run):
+            spl[jj] = base + i
+        j = run[-1] + 1
+    want = dict((bkt[b], seam_of[b]) for b in seam_of)
+    return bkt, keys, spl, want
+
+
+def _lcp_hooks(st):
+    """the observed interface of ps5_sample_sort_lcp: st holds the parameters' ids, the keys, the splitters, and collects set_lcp events"""
+    def hooks(m, e):
+        nm = e["callee"]["name"]
+        rc = _recv(e)
+        args = _call_args(e)
+        if rc is not None and rc["k"] == "DeclRefExpr" and rc["ref"]["id"] == st["strptr"]:
+            if nm == "flipped" and not args:
+                return st["flipped"]
+            if nm in ("active", "shadow") and not args:
+                return ("strings", nm)
+            if nm == "set_lcp" and len(args) == 2:
+                p, v = m.ev(args[0]), m.ev(args[1])
+                if not isinstance(p, int) or not isinstance(v, int) or isinstance(p, bool) or isinstance(v, bool):
+                    raise Undecidable("%s: set_lcp() with a position / value that the evaluation does not know" % m.fn.nloc(e))
+                st["events"].append((p, v))
+                return None
+            raise Undecidable("%s: %s() on the string pointer is not part of the modelled interface" % (m.fn.nloc(e), nm))
+        if rc is not None and rc["k"] == "DeclRefExpr" and rc["ref"]["id"] == st["classifier"]:
+            if nm == "get_splitter" and len(args) == 1:
+                j = m.ev(args[0])
+                if not isinstance(j, int) or isinstance(j, bool):
+                    raise Undecidable("%s: get_splitter() with an index that the evaluation does not know" % m.fn.nloc(e))
+                if j not in st["spl"]:
+                    raise EvalFault("get_splitter(%d), but the classifier has the splitters 0..%d (%s)" % (j, len(st["spl"]) - 1, m.fn.nloc(e)))
+                return st["spl"][j]
+            raise Undecidable("%s: %s() on the classifier is not part of the modelled interface" % (m.fn.nloc(e), nm))
+        if nm == "get_key_at" and e["callee"].get("qname") == NS + "get_key_at" and len(args) == 3:
+            s_, i, d = m.ev(args[0]), m.ev(args[1]), m.ev(args[2])
+            want_set = ("strings", "shadow" if st["flipped"] else "active")
+            if s_ != want_set or d != st["depth"] or not isinstance(i, int) or isinstance(i, bool):
+                raise Undecidable("%s: get_key_at() is not called with (the sorted strings, index, depth) in the evaluation" % m.fn.nloc(e))
+            i = _conv(i, "unsigned long")
+            if not 0 <= i < len(st["keys"]):
+                raise EvalFault("get_key_at(strset, %d, depth) with %d strings in the set (%s)" % (i, len(st["keys"]), m.fn.nloc(e)))
+            return st["keys"][i]
+        return NotImplemented
+    return hooks
+
+
+def _run_seam(tu, fn, roles, nb, kbytes, plan, flipped, cap=None):
+    """evaluates ps5_sample_sort_lcp on the boundary array of `plan`; -> (got {pos: value}, want {pos: value}, events, layout)"""
+    lay = _seam_keys(plan, nb, kbytes)
+    if lay is None:
+        raise Undecidable("%s: no key layout for the bucket plan %s" % (fn.loc, sorted(plan.items())))
+    bkt, keys, spl, want = lay
+    depth = 16
+    st = dict(strptr=roles["strptr"]["did"], classifier=roles["classifier"]["did"], flipped=flipped, keys=keys, spl=spl, depth=depth, events=[])
+    m = StepMachine(tu, fn, _lcp_hooks(st))
+    size = nb + 1 if cap is None else cap
+    base = m.alloc(size, lambda i: bkt[i])
+    vals = []
+    for p in fn.params:
+        if p is roles["bkt"]:
+            vals.append(base)
+        elif p is roles["depth"]:
+            vals.append(depth)
+        else:
+            vals.append(("object", p.get("name")))
+    try:
+        m.call(fn, None, values=vals)
+    except skel.Diverges as d_:
+        raise Undecidable("%s: a loop does not end in the evaluation" % fn.nloc(d_.loop))
+    got = {}
+    for p, v in st["events"]:
+        got[p] = v
+    return got, dict((p, depth + c) for p, c in want.items()), st["events"], lay
+
+
+def _lcp_roles(fn):
+    """the parameters of ps5_sample_sort_lcp by type: boundary array (pointer to unsigned integers), depth (the integer), classifier (the
+    one get_splitter() is called on), string pointer (the one set_lcp() is called on)"""
+    roles = {}
+    for p in fn.params:
+        pt = _ptr_to(p.get("ty"))
+        if pt is not None and _int_type(pt[0]) is not None and not _int_type(pt[0])[0]:
+            roles.setdefault("bkt", p)
+        elif pt is None and _int_type((p.get("ty") or "").rstrip("& ")) is not None:
+            roles.setdefault("depth", p)
+    by_did = dict((p["did"], p) for p in fn.params)
+    for x in fn.nodes():
+        if "callee" in x and x["callee"]["name"] in ("get_splitter", "set_lcp"):
+            rc = _recv(x)
+            if rc is not None and rc["k"] == "DeclRefExpr" and rc["ref"]["id"] in by_did:
+                roles.setdefault("classifier" if x["callee"]["name"] == "get_splitter" else "strptr", by_did[rc["ref"]["id"]])
+    if set(roles) != {"bkt", "depth", "classifier", "strptr"} or len(set(id(p) for p in roles.values())) != 4:
+        raise Undecidable("%s: the parameters of %s are not (.., classifier, string pointer, depth, boundary array)" % (fn.loc, fn.name))
+    return roles
+
+
+def _seam_domain(fn):
+    try:
+        nb = int(_re.match(r"\d+", (fn.targs or [""])[0]).group(0))
+    except (AttributeError, ValueError):
+        raise Undecidable("%s: the number of buckets is not the first template argument of %s" % (fn.loc, fn.name))
+    kty = None
+    for x in fn.nodes():
+        if "callee" in x and x["callee"]["name"] == "get_splitter":
+            kty = _bare_ty(x["callee"].get("ret"))
+    if kty is None or _int_type(kty) is None or _int_type(kty)[1] < 64:
+        raise Undecidable("%s: the key type of %s (%s) has fewer than 8 bytes; the key layout of BUCKET-BOUNDARY-LCP needs 8" % (fn.loc, fn.name, kty))
+    if nb < 15 or nb % 2 == 0:
+        raise Undecidable("%s: %s has %d buckets; the plans of BUCKET-BOUNDARY-LCP need an odd number >= 15" % (fn.loc, fn.name, nb))
+    return nb, _int_type(kty)[1] // 8
+
+
+def seam_plans(nb):
+    last = nb - 1
+    return [
+        ("first non-empty bucket is bucket 0 (a < bucket of three strings); every kind of seam", {0: 3, 1: 2, 2: 2, 5: 1, 6: 3, 8: 2, 11: 2, 13: 1, last: 2}, False),
+        ("first non-empty bucket is an = bucket", {1: 2, 4: 3, last - 1: 1}, False),
+        ("first non-empty bucket is a later < bucket, pointer flipped", {2: 3, 3: 1, last: 1}, True),
+        ("only the last bucket holds strings", {last: 4}, False),
+        ("only one = bucket holds strings", {3: 2}, False),
+    ]
+
+
+def check_boundary_lcp(ck, tu):
+    fns = [f for f in tu.functions if f.qname == NS + "ps5_sample_sort_lcp" and f.body is not None]
+    n = 0
+    seen_bst = set()
+    for fn in fns:
+        roles = _lcp_roles(fn)
+        nb, kbytes = _seam_domain(fn)
+        tag = "ps5_sample_sort_lcp [%s]" % ", ".join(t.split("::")[-1] for t in (fn.targs or [])[2:])
+        n += 1
+        bad = False
+        # every plan on the first instance of each boundary type; the plans that decide which string of a bucket is read on all instances
+        bst = roles["bkt"].get("ty")
+        plans = seam_plans(nb) if bst not in seen_bst else seam_plans(nb)[:2]
+        seen_bst.add(bst)
+        seams = 0
+        for name, plan, flipped in plans:
+            try:
+                got, want, events, lay = _run_seam(tu, fn, roles, nb, kbytes, plan, flipped)
+            except EvalFault as f_:
+                ck.violation("BUCKET-BOUNDARY-LCP", fn.qname, "ps5_sample_sort_lcp:fault",
+                             "%d buckets, strings in the buckets %s (%s): the evaluation reaches %s"
+                             % (nb, ", ".join("%d (%d)" % bz for bz in sorted(plan.items())), name, f_), fn.loc)
+                bad = True
+                break
+            seams += len(want)
+            if got == want:
+                continue
+            bkt, keys, spl, _ = lay
+            for p in sorted(set(got) | set(want)):
+                if got.get(p) == want.get(p):
+                    continue
+                if p in want:
+                    why = ("the LCP entry at position %d (first string of a bucket, key 0x%016x; the string before it has the key 0x%016x: %d common "
+                           "leading bytes, depth 16) %s, required %d"
+                           % (p, keys[p], keys[p - 1], want[p] - 16, ("is set to %d" % got[p]) if p in got else "is not written", want[p]))
+                else:
+                    why = "the LCP entry at position %d is set to %d, but position %d is not the first string of a bucket after another non-empty bucket" % (p, got[p], p)
+                ck.violation("BUCKET-BOUNDARY-LCP", fn.qname, "ps5_sample_sort_lcp:seam",
+                             "%d buckets, strings in the buckets %s (%s): %s - the entry at a seam is depth + common key bytes of the last string "
+                             "of the bucket before and the first string of the bucket after"
+                             % (nb, ", ".join("%d (%d)" % bz for bz in sorted(plan.items())), name, why), fn.loc)
+                bad = True
+                break
+            if bad:
+                break
+        if not bad:
+            ck.ok("BUCKET-BOUNDARY-LCP", tag, "%d bucket plans, %d seams: set_lcp(first string of the later bucket, depth + common key bytes with the "
+                  "last string of the bucket before), nothing else written, no read outside the %d boundaries" % (len(plans), seams, nb + 1))
+    return n
+
+
+def _vec_elem(e):
+    """(field, index expression) if e is this->field[index], else None"""
+    ip = match.index_parts(e)
+    if ip and match.this_field(ip[0]):
+        return match.this_field(ip[0]), ip[1]
+    return None
+
+
+def _resize_capacity(tu, fns, field, part):
+    """number of elements this->field[part] gets from the resize() calls of the class (all sites must agree), evaluated from the argument"""
+    caps, site = set(), None
+    for fn in fns:
+        for x in fn.nodes():
+            if "callee" in x and x.get("member_call") and x["callee"]["name"] in ("resize", "assign") and _recv(x) is not None:
+                ve = _vec_elem(_recv(x))
+                if ve is None or ve[0] != field:
+                    continue
+                idx = strip_casts(ve[1])
+                args = _call_args(x)
+                if x["callee"]["name"] != "resize" or not args or idx is None:
+                    raise Undecidable("%s: %s[..] is sized by a call the evaluation does not model" % (fn.nloc(x), field))
+                env = {}
+                if idx["k"] == "DeclRefExpr" and idx["ref"].get("kind") == "param":
+                    env[idx["ref"]["id"]] = part
+                elif const_int(idx) is not None:
+                    if const_int(idx) != part:
+                        continue
+                else:
+                    raise Undecidable("%s: %s[..] is resized under an index that is not a parameter or a constant" % (fn.nloc(x), field))
+                sk = skel.Skel(fn, env=env, tu=tu)
+                v = sk.ev(args[0])
+                if not isinstance(v, int) or isinstance(v, bool) or not 0 <= v <= 1 << 20:
+                    raise Undecidable("%s: the size %s[..] is resized to is not known for part %d" % (fn.nloc(x), field, part))
+                caps.add(v)
+                site = (fn, x)
+    if len(caps) != 1:
+        raise Undecidable("%s: no single size of %s[%d] follows from the resize() calls of the class" % (fns[0].loc, field, part))
+    return caps.pop(), site
+
+
+def _step_hooks(tu, fns, st):
+    """the observed interface of a PS5BigSortStep member evaluated on the step without strings"""
+    def block(m, field, part):
+        key = (field, part)
+        if key not in st["blocks"]:
+            cap, site = _resize_capacity(tu, fns, field, part)
+            st["blocks"][key] = (m.alloc(cap, 0), cap, site)
+        if st["blocks"][key] is None:
+            raise Undecidable("%s: %s[%d] is used after destroy()" % (m.fn.loc, field, part))
+        return st["blocks"][key]
+
+    def hooks(m, e):
+        nm = e["callee"]["name"]
+        rc = _recv(e)
+        args = _call_args(e)
+        if rc is None:
+            return NotImplemented
+        ve = _vec_elem(rc)
+        if ve is not None and nm in ("data", "begin", "destroy") and not args:
+            part = m.ev(ve[1])
+            if not isinstance(part, int) or isinstance(part, bool):
+                raise Undecidable("%s: %s[..] under an index the evaluation does not know" % (m.fn.nloc(e), ve[0]))
+            b = block(m, ve[0], part)
+            if nm == "destroy":
+                st["blocks"][(ve[0], part)] = None
+                return None
+            st["used"].add((ve[0], part))
+            return b[0]
+        if rc["k"] == "This" and nm in ("substep_add", "substep_notify_done") and not args:
+            return None
+        f = match.this_field(rc)
+        if f and nm == "size" and not args and (_bare_ty(rc.get("ty")).startswith(NS + "String")):
+            return 0
+        return NotImplemented
+    return hooks
+
+
+def check_boundary_array(ck, tu):
+    by_inst = {}
+    for fn in tu.functions:
+        if fn.record == BIG and fn.body is not None and fn.kind == "method":
+            by_inst.setdefault(tuple(fn.rtargs or []), []).append(fn)
+    n = 0
+    for rt, fns in sorted(by_inst.items()):
+        tag = "PS5BigSortStep [%s]" % inst(fns[0])
+        users = [f for f in fns if any("callee" in x and x["callee"]["name"] == "substep_notify_done" and _recv(x) is not None and _recv(x)["k"] == "This"
+                                       for x in f.nodes())
+                 and any("callee" in x and x["callee"]["name"] == "data" and _recv(x) is not None and _vec_elem(_recv(x)) for x in f.nodes())]
+        if len(users) != 1:
+            raise Undecidable("%s: the member that turns the counters of part 0 into bucket boundaries (takes [..].data(), releases the handle) "
+                              "is not found in %s" % (fns[0].loc, tag))
+        fin = users[0]
+        n += 1
+        st = dict(blocks={}, used=set())
+        m = StepMachine(tu, fin, _step_hooks(tu, fns, st))
+        try:
+            m.call(fin, None, values=[])
+        except EvalFault as f_:
+            live = [(k_, v_) for k_, v_ in st["blocks"].items() if v_ is not None and k_ in st["used"]]
+            if len(live) != 1:
+                raise Undecidable("%s: the evaluation reaches %s, but it is not clear which counter array is meant" % (fin.loc, f_))
+            (field, part), blk = live[0]
+            ck.violation("BOUNDARY-ARRAY-SIZE", fin.qname, "%s:%s" % (fin.name, field),
+                         "%s() evaluated on the step whose buckets are all empty reaches %s; %s[%d] has the %d elements that %s() (line %s) "
+                         "resizes it to for part %d: the bucket boundaries need one element per bucket and the sentinel"
+                         % (fin.name, f_, field, part, blk[1], blk[2][0].name, blk[2][1].get("l"), part), fin.loc)
+            continue
+        except skel.Diverges as d_:
+            raise Undecidable("%s: a loop does not end in the evaluation" % fin.nloc(d_.loop))
+        if not st["used"]:
+            raise Undecidable("%s: %s() does not take the data() of a counter array in the evaluation" % (fin.loc, fin.name))
+        # the boundary array handed to the LCP pass
+        passed = 0
+        for f in fns:
+            for x in f.nodes():
+                if "callee" not in x or x["callee"].get("qname") != NS + "ps5_sample_sort_lcp":
+                    continue
+                callee = tu.by_did.get(x["callee"].get("did"))
+                if callee is None or callee.body is None:
+                    raise Undecidable("%s: the body of ps5_sample_sort_lcp called here is not in the IR" % f.nloc(x))
+                roles = _lcp_roles(callee)
+                nb, kbytes = _seam_domain(callee)
+                a = _call_args(x)[callee.params.index(roles["bkt"])]
+                a = strip_casts(a)
+                ve = _vec_elem(_recv(a)) if a is not None and "callee" in a and a["callee"]["name"] == "data" and _recv(a) is not None else None
+                if ve is None or const_int(ve[1]) is None:
+                    raise Undecidable("%s: the boundary array handed to ps5_sample_sort_lcp is not [constant].data() of a counter array" % f.nloc(x))
+                cap, site = _resize_capacity(tu, fns, ve[0], const_int(ve[1]))
+                passed += 1
+                try:
+                    _run_seam(tu, callee, roles, nb, kbytes, {}, False, cap=cap)
+                except EvalFault as f_:
+                    ck.violation("BOUNDARY-ARRAY-SIZE", f.qname, "%s:%s" % (f.name, ve[0]),
+                                 "%s() hands %s[%d].data() to ps5_sample_sort_lcp<%d>; evaluated on the step whose buckets are all empty it reaches %s; "
+                                 "%s[%d] has the %d elements that %s() (line %s) resizes it to: the LCP pass reads one boundary per bucket and the sentinel"
+                                 % (f.name, ve[0], const_int(ve[1]), nb, f_, ve[0], const_int(ve[1]), cap, site[0].name, site[1].get("l")), f.nloc(x))
+                    passed = -100
+        if passed < 0:
+            continue
+        ck.ok("BOUNDARY-ARRAY-SIZE", tag, "%s() and %d LCP pass(es) evaluated with %s as blocks of the size resize() gives them: every element read or "
+              "written lies inside" % (fin.name, passed, ", ".join("%s[%d]" % k_ for k_ in sorted(st["used"]))))
+    return n
+
+
 # ---------------------------------------------------------------------------------------------- FRONT-LEVEL
 # PS5SmallsortJob keeps its pending work on stacks of levels (std::vector members) that are consumed from both ends: the owner works on the
 # top (back()), work sharing gives away the OLDEST live level - the element at the front cursor (an integer member) - and retires it by
@@ -3494,12 +4032,16 @@ def run(ck):
                                   "places where a range is reported finished (ctx.donesize) not found in the sorters"))
     ck.guarded(lambda: ck.require(check_classifier(ck, tu) >= 2, "no classifier class (SSClassify*) with descent routines stored by classify() found"))
     ck.guarded(lambda: check_packed_lcp(ck, tu))
+    ck.guarded(lambda: ck.require(check_boundary_lcp(ck, tu) >= 2, "ps5_sample_sort_lcp not found"))
+    ck.guarded(lambda: ck.require(check_boundary_array(ck, tu) >= 2, "no PS5BigSortStep instance found"))
     ck.guarded(lambda: check_result_array(ck, tu))
     ck.guarded(lambda: check_stale_data_pointer(ck, tu))
     ck.guarded(lambda: ck.require(check_array_bounds(ck, tu) >= 10, "fixed-size arrays of the sample sort classes not found"))
     ck.guarded(lambda: ck.require(check_front_level(ck, tu) >= 2, "no function that advances a front cursor of a stack of levels found in PS5SmallsortJob"))
     ck.floor("CLASSIFY-BUCKET", 2)      # per class instance: the one-key and the interleaved descent of the default classifier
     ck.floor("SPLITTER-LCP-FLAGS", 3)   # per classifier instance of the witness: TreeCalcUnrollInterleave<.., 10>, <.., 3>, TreeUnrollInterleave<.., 5>
+    ck.floor("BUCKET-BOUNDARY-LCP", 2)   # per instance of ps5_sample_sort_lcp (two boundary types x string pointers)
+    ck.floor("BOUNDARY-ARRAY-SIZE", 2)   # per instance of PS5BigSortStep
     ck.floor("FRONT-LEVEL", 2)          # per function: sample_sort_free_work, mkqs_free_work
     ck.floor("PACKED-LCP-MASK", 12)
     ck.floor("USE-AFTER-RELEASE", 40)
